@@ -33,6 +33,7 @@ func init() {
 			{ID: "C14.11", Desc: "a Set or Delete that failed with a timeout does not change the map later", Run: func(c *Ctx) { ruleAbandonedNotPublished(c, "C14.11") }, MinSites: 1},
 			{ID: "C14.12", Desc: "Delete removes only the key's file", Run: func(c *Ctx) { ruleDeleteOnlyTheKey(c, "C14.12") }, MinSites: 1},
 			{ID: "C14.13", Desc: "the listing skips files only on kind, temporary prefix or decoded key", Run: func(c *Ctx) { ruleKeysWalkConditions(c, "C14.13") }, MinSites: 1},
+			{ID: "C14.15", Desc: "keys listed by the maintenance API survive the JSON encoding", Run: func(c *Ctx) { ruleAPIListKeysUTF8(c, "C14.15") }, MinSites: 1},
 		},
 	})
 }
